@@ -17,8 +17,8 @@ def body(run):
     q = run.quick()
     exe = [None]
     res = run.parallel(
-        lambda: run.tlc("ScRecv", "ScRecv_MC", "ScRecv_c10_mc.cfg", label="contract: replay/reorder/drop, budget 2, 3 plans x 5 numberings (wrap)"),
-        lambda: run.tlc("ScRecv", "ScRecv_MC", "ScRecv_c10_dev.cfg", expect="violation", count=False,
+        lambda: run.tlc("ScRecv", "ScRecv_MC", "ScRecv_c10_mc.cfg", workers=2, label="contract: replay/reorder/drop, budget 2, 3 plans x 5 numberings (wrap)"),
+        lambda: run.tlc("ScRecv", "ScRecv_MC", "ScRecv_c10_dev.cfg", workers=1, expect="violation", count=False,
                         label="deviation demo: no sequence check violates InvNoReplay"),
         lambda: run.tlc("ScRecv", "ScRecv_MC", "ScRecv_c10_gen_q.cfg" if q else "ScRecv_c10_gen_t.cfg", mode="gen", count=False,
                         label="behaviours with contract and as-is outcome of every input"),
@@ -41,11 +41,24 @@ def body(run):
                 cases.append(c)
     run.log("TLC: %d states; %d behaviours (%d across the wrap); %d cases to replay" % (
         run.cov["states"], len(behs), len(wrap), len(cases)))
-    results = run.go_run(exe[0], ["-par", "6"], cases=cases, timeout=run.pick(600, 2400))
+    tpath = run.tmp("traces.ndjson")
+    results = run.go_run(exe[0], ["-par", "6", "-trace", tpath], cases=cases, timeout=run.pick(600, 2400))
     if len(results) != len(cases):
         raise vf.Inconclusive("harness returned %d results for %d cases" % (len(results), len(cases)))
     sc.log_inconclusive(run, results)
     run.absorb(results)
+    # code -> spec: TLC validates the recorded inputs + receiver events against the receiver of ScRecv
+    ok, n = sc.validate_traces(run, tpath, "trace validation of the replayed behaviours")
+    if ok:
+        run.cov["traces_validated_against_impl"] += n
+        bad, _ = sc.validate_traces(run, tpath, "binding self-test: one recorded verdict flipped", corrupt=True)
+        if bad is not False:
+            raise vf.Inconclusive("trace validation accepted a corrupted trace")
+        run.cov["corrupted_trace_rejected"] = True
+    elif ok is False and not run.violations:
+        run.violation("%s:recorded-trace-not-a-behaviour-of-the-specification" % run.prop.lower(),
+                      "TLC rejects the recorded receiver events (see out/log/%s)" % run.prop)
+
     run.cov["behaviours_generated"] = len(behs) + len(wrap)
     run.cov["rule"] = ("one case per (TLC behaviour with at least one adversary move, policy, mode, receiving side); "
                        "class = receiver x policy x mode x multiset of (move, chunk kind, specified outcome)")
